@@ -188,12 +188,16 @@ package core
 //@     invariant 0 <= i && mod(i, 2) == 0 && mod(len(hexStr), 2) == 0 && len(result) == div(len(hexStr), 2) && cpinv(p) && pM(p) <= old(pM(p)) && tokW(p.currentToken) == 1
 //@     decreases len(hexStr) - i
 
+// "num gen R" is an indirect reference; a plain integer consumes exactly ONE token (the look-ahead for a reference
+// never swallows the integer that follows)
 //@ func (*Parser) parseNumber results (obj, err)
-//@   property C02
+//@   property C02, C06
 //@   requires cpinv(p) && tokW(p.currentToken) == 1
 //@   decreases pM(p), 0
 //@   ensures cpinv(p) && pM(p) <= old(pM(p))
 //@   ensures progress: !err ==> pM(p) < old(pM(p))
+//@   ensures plain_integer_consumes_one_token: !err && istype(obj, Int) ==> p.currentToken == old(p.peekToken) && astype(obj, Int) == strconv.ParseInt(old(p.currentToken.Value), 10, 64)
+//@   ensures reference_is_number_generation: !err && istype(obj, IndirectRef) ==> !isnil(old(p.peekToken)) && old(p.peekToken).Type == TokenInteger && astype(obj, IndirectRef).Number == strconv.ParseInt(old(p.currentToken.Value), 10, 64) && astype(obj, IndirectRef).Generation == strconv.ParseInt(old(p.peekToken.Value), 10, 64)
 
 //@ func (*Parser) parseArray results (obj, err)
 //@   property C02
